@@ -653,8 +653,14 @@ def _merge_acctinfo(args: ArgsType, markup: BytesIO) -> None:
         for clsnm, infos in itertools.groupby(acctinfos, key=sortKey)
     ]
 
+    # The server's list replaces configured accounts wholesale: an account type
+    # of which it lists no active account must not fall through to config files
+    discovered: ChainMap = ChainMap(*parsed_args)
+    accttypes = ("checking", "savings", "moneymrkt", "creditline", "creditcard", "investment")
+    stale = {typ: [] for typ in accttypes if typ in args and typ not in discovered}
+
     # Insert extracted ACCTINFO after CLI commands, but before config files
-    args.maps.insert(1, ChainMap(*parsed_args))  # type: ignore
+    args.maps.insert(1, ChainMap(discovered, stale))  # type: ignore
 
 
 def request_stmt(args: ArgsType) -> None:
